@@ -100,6 +100,7 @@ fn main() {
         "C06" => checks::c06::run(&ctx),
         "C07" => checks::c07::run(&ctx),
         "C08" => checks::c08::run(&ctx),
+        "C09" => checks::c09::run(&ctx),
         _ => {
             eprintln!("unknown property {prop}");
             2
